@@ -261,7 +261,7 @@ Section C05_wire.
   Proof. exact (entry_changes_are_dated_lemma hstate compute cache_on ims_on parse_ims sanitize_ok prime negotiate rules_of dbg). Qed.
   (** ... over histories.  A client holds the response [f] for the transformed tuple of its request [r], dated
       [L]: the cache [c2] holds, under one of the two keys of the URL, an entry with that variant which is not
-      older than [L] — or no entry (the response was not admitted).  After any history all of whose requests
+      older than [L] — or no entry (the response was not stored).  After any history all of whose requests
       happen later than [L], a request [r'] for the same URL with an equal transformed list finds an entry [e]
       that is not younger than [L] (this is what the freshness test of the 304 establishes, up to the one-second
       resolution of HTTP dates: C04) only if that entry still holds [f] for it: "not modified" is the truth.
@@ -281,7 +281,7 @@ Section C05_wire.
   Proof. exact (honest_not_modified hstate compute cache_on ims_on parse_ims sanitize_ok prime negotiate rules_of dbg). Qed.
 
   (** ... and this is how a client comes to hold a copy in that sense: it was served from the cache (dated with
-      the entry's date), its response was computed and admitted (dated with the time of the step = the new
+      the entry's date), its response was computed and stored (dated with the time of the step = the new
       entry's date), or computed and pushed into the entry it missed in (dated with the old entry's date; the
       entry that now holds the variant is dated with the time of the step) *)
   Theorem served_copy_is_held :
